@@ -28,9 +28,9 @@ func init() {
 		Assumptions: []string{"finite weights, no negative zero", "module link weights are 1.0 (all the YAML format expresses)", "every generation of an experiment has a champion"},
 		Cases: func(tier string) int {
 			if tier == "quick" {
-				return 96
+				return 1920
 			}
-			return 1200
+			return 9600
 		},
 		Run: runC15,
 		Required: []string{"roundtrip.plain", "roundtrip.yaml", "roundtrip.yaml_modular", "roundtrip.organism_binary", "roundtrip.organism_gob",
